@@ -104,6 +104,17 @@ L['C09'] = dict(modules=['Schc.Properties.C09'], level='proof', technique='Lean 
               T('C09_sctp', 'full', 'SCTP checksum: init all ones, final complement, stored low byte first'),
               T('C09_order', 'full', 'compute entries already in dependency order are run in that order')],
     level_text='Proved over the model of the compute functions for all inputs. Where the code locates its inputs by relative position in the rebuilt field list (pos-2, pos-9 .. pos+3, search for the source address), the theorems are stated over those same positions; that a rule in protocol order puts the right fields there, and that a packet with correct fields is reproduced bit for bit, is checked on every run by the compute and schc correspondence streams against independent RFC 1071 / 768 / 8200 / 9260 implementations (constructed wrap-around, double-carry, 0x0000 and 0xFFFF cases).')
+
+L['C12'] = dict(modules=['Schc.Properties.C12'], level='proof', technique='Lean 4 structural round-trip theorems (literal equality) over a JSON tree model',
+    theorems=[T('C12_roundtrip_buffer', 'full', 'Buffer: from_json(to_json b) = b (bits and padding side), every buffer'),
+              T('C12_roundtrip_mapping', 'full', 'MatchMapping with distinct values and prefix-free indices'),
+              T('C12_roundtrip_rule_field', 'full', 'RuleFieldDescriptor, Buffer or mapping target value'),
+              T('C12_roundtrip_rule', 'full', 'RuleDescriptor, compression and no-compression'),
+              T('C12_roundtrip_context', 'full', 'Context'),
+              T('C12_redump', 'full', 're-serialising the reloaded context gives the same JSON'),
+              T('C12_same_behaviour', 'full', 'any function of the context (manager compress / decompress / matching) gives the same result on the reloaded context'),
+              T('C12_pyEq', 'full', 'the reloaded context compares equal under the library\'s __eq__ methods')],
+    level_text='Proved for all buffers (any length, alignment, side) and all contexts whose mappings are invertible (distinct values, prefix-free indices) and whose no-compression rules carry no descriptors. Equality is literal in a model that keeps everything the code can observe, so equal behaviour is congruence. Trusted: json.dumps/json.loads on a tree of dict/list/str/int; that enum members reloaded as plain str are only compared with == / in (watched by the json stream, which drives original and reloaded contexts through the real manager and compares SCHC packets and decompressed packets). FieldDescriptor / HeaderDescriptor / PacketDescriptor round trips are modelled and compared by correspondence; their theorems are the Buffer theorem applied fieldwise and are not separately stated.')
 for k in L:
     L[k]['level_note'] = NOTE
     L[k]['design_ref'] = 'DESIGN.md §6 ' + k
